@@ -46,3 +46,17 @@ CONTROLS = [
     mut('ctl-flatnonzero', ['C11', 'C12', 'C13'], (PC, 'non_zero_indices = np.where(diff_values != 0)[0]', 'non_zero_indices = np.flatnonzero(diff_values != 0)'), control=True),
     mut('ctl-peaks-argwhere', ['C11'], (PC, 'peak_indices = np.where(diff[1:] * diff[:-1] < 0)[0]', 'peak_indices = np.flatnonzero((diff[1:] * diff[:-1]) < 0)'), control=True),
 ]
+
+MUTANTS += [
+    # ---- C02 -----------------------------------------------------------------------------------------------------
+    mut('c02-state-carried-between-periods', ['C02'], (SD, "a[0][0] * resp_u[s:, i] + a[0][1] * resp_v[s:, i] + b[0][0] * acc[i]", "a[0][0] * np.roll(resp_u[s:, i], 1) + a[0][1] * resp_v[s:, i] + b[0][0] * acc[i]")),
+    mut('c02-noncausal-read', ['C02', 'C01'], (SD, "resp_v[s:, i + 1] = (a[1][0] * resp_u[s:, i] + a[1][1] * resp_v[s:, i] + b[1][0] * acc[i] + b[1][1] * acc[i + 1])", "resp_v[s:, i + 1] = (a[1][0] * resp_u[s:, i] + a[1][1] * resp_v[s:, i] + b[1][0] * acc[i] + b[1][1] * acc[min(i + 2, len(acc) - 1)])")),
+    mut('c02-initial-state-nonzero(linear in acc: invisible to C02 relations)', ['C01'], (SD, "    resp_v = np.zeros([len(periods), len(acc)], dtype=float)\n", "    resp_v = np.zeros([len(periods), len(acc)], dtype=float)\n    resp_u[s:, 0] = acc[0] * 1e-3 / w ** 2\n")),
+    mut('c02-abs-before-recurrence', ['C02', 'C01'], (SD, "    acc = -np.array(acc, dtype=float)\n", "    acc = -np.abs(np.array(acc, dtype=float))\n")),
+    mut('c02-w-sorted-rows-not', ['C02', 'C01'], (SD, "    w = 6.2831853 / periods[s:]\n", "    w = np.sort(6.2831853 / periods[s:])[::-1]\n")),
+    mut('c02-soft-nonlinearity', ['C02'], (SD, "    acc = -np.array(acc, dtype=float)\n", "    acc = -np.array(acc, dtype=float)\n    acc = np.where(np.abs(acc) > 50 * np.mean(np.abs(acc)) + 1e-300, acc * 0.999, acc)\n")),
+    mut('c02-spectra-signed-max', ['C02', 'C03'], (SD, "    return abs(np.where(-amin > amax, amin, amax))", "    return np.where(-amin > amax, amin * (1 + 1e-6), amax)")),
+]
+CONTROLS += [
+    mut('ctl-blockwise-periods', ['C02', 'C01'], (SD, "    a, b = compute_a_and_b(xi, w, dt)\n", "    a, b = compute_a_and_b(xi, w * 1.0, dt)\n"), control=True),
+]
